@@ -296,7 +296,8 @@ fn faults(cx: &mut Ctx, count: u64, seed: u64) {
             }
             if s.fmt == "yaml" && !s.bytes.is_empty() && to != "toml" {
                 // the same text in UTF-16/32: the reader fails at every offset (inside and between code units)
-                let text = String::from_utf8_lossy(&s.bytes).into_owned();
+                // (with a character outside the BMP at the end: a fault can then fall between the halves of a surrogate pair)
+                let text = format!("{}# \u{1f600}\n", String::from_utf8_lossy(&s.bytes));
                 // every encoding in turn (over the targets and the YAML streams of a run)
                 let ti = TARGETS.iter().position(|t| *t == to).unwrap_or(0);
                 let enc = val::ENCODINGS[((i / 4) as usize * 3 + ti) % val::ENCODINGS.len()];
@@ -682,6 +683,24 @@ fn boundaries(cx: &mut Ctx, seed: u64) {
                 v = if map { V::Map(vec![(V::Str("k".into()), v)]) } else { V::Seq(vec![v]) };
             }
             vals.push(v);
+        }
+    }
+    // a TOML document of 1.2 MiB (between 1 MiB and the 2 MiB look-ahead of reader detection) that starts with a
+    // table header and comments, so that the YAML trial gives up long before the end: detected and named
+    {
+        let mut text = String::from("[package] # header\n# a comment line\nname = \"xt\" # trailing\n");
+        let mut i = 0;
+        while text.len() < 1_200_000 {
+            text.push_str(&format!("k{i} = \"value number {i}\" # c\n"));
+            i += 1;
+        }
+        let bytes = Rc::new(text.into_bytes());
+        for from in ["detect", "toml"] {
+            for m in [Mode::Slice, Mode::Reader(Sched::All), Mode::Reader(Sched::Fixed(65536)), Mode::Reader(Sched::Random(Rng::new(rng.next()), 70000))] {
+                let c = CallSpec { bytes: bytes.clone(), from, true_fmt: None, mode: m, rfault: None, docs: None, values: None, over_report: None };
+                let case = CaseSpec { to: "json", calls: vec![c], wfault: None, accept: Accept::All, keyed: true, buffered: true, key_text: None, label: "boundary/toml/1.2MiB".into() };
+                cx.run(&case, true);
+            }
         }
     }
     for (i, v) in vals.iter().enumerate() {
